@@ -104,10 +104,12 @@ func (l *c04Link) writes() int {
 // ---------------------------------------------------------------- the scripted peer
 
 type c04Req struct {
-	call     int
-	typ      byte
-	required bool // the call cannot produce its value without this reply
-	complete bool // the whole reply frame was taken by the client's reader
+	call      int
+	typ       byte
+	required  bool // the call cannot produce its value without this reply
+	complete  bool // the whole reply frame was taken by the client's reader
+	readAhead bool // READ beyond the end of the file: WriteTo issues a timing-dependent number of these
+	rlen      int  // length of the reply frame
 }
 
 type c04Out struct {
@@ -424,7 +426,7 @@ func (p *c04Peer) run() {
 		p.mu.Lock()
 		idx := len(p.reqs)
 		call := int(p.curCall.Load())
-		p.reqs = append(p.reqs, c04Req{call: call, typ: fr.Typ, required: required})
+		p.reqs = append(p.reqs, c04Req{call: call, typ: fr.Typ, required: required, readAhead: fr.Typ == fxpRead && !required, rlen: len(reply) + 4})
 		p.mu.Unlock()
 		lag := p.lag > 0 && (p.lagAll || (p.lagCalls[call] && (fr.Typ == fxpRead || fr.Typ == fxpWrite)))
 		p.outq <- c04Out{idx: idx, b: frame(reply), lag: lag}
@@ -556,10 +558,14 @@ func c04Program(v int) ([]sftp.ClientOption, []c04Call) {
 		n, err := s.g.Write(c04Pattern(8, 11, 2))
 		return fmt.Sprintf("n=%d", n), err
 	}
-	if v == 0 {
+	if v == 0 || v == 2 {
+		opts := []sftp.ClientOption{sftp.MaxPacketUnchecked(8)}
+		if v == 2 { // the same program on the sequential read paths (readAtSequential, writeToSequential)
+			opts = append(opts, sftp.UseConcurrentReads(false))
+		}
 		// maxPacket 8: a 40-byte ReadAt is 5 concurrent chunk requests, WriteTo is stat + 6 reads (+ read-ahead),
 		// a 24-byte WriteAt is 3 sequential writes, a 20-byte sequential ReadFrom is 3 writes (last one short).
-		return []sftp.ClientOption{sftp.MaxPacketUnchecked(8)}, []c04Call{
+		return opts, []c04Call{
 			{"stat", stat("/f")},
 			{"open", c04Open("/f", false, setF)},
 			{"read8", c04ReadAt(c04F, 8, 8)},
@@ -567,7 +573,6 @@ func c04Program(v int) ([]sftp.ClientOption, []c04Call) {
 			{"readmc", c04ReadAt(c04F, 40, 0)},
 			{"write24", c04WriteAt(c04F, 24, 8)},
 			{"lstat", lstat},
-			{"writeto", c04WriteTo},
 			{"readdir", c04ReadDir},
 			{"fstat", fstat},
 			{"readlink", readlink},
@@ -575,6 +580,7 @@ func c04Program(v int) ([]sftp.ClientOption, []c04Call) {
 			{"gwrite", gwrite},
 			{"readfrom", c04ReadFrom(20)},
 			{"gclose", c04CloseFile(c04G)},
+			{"writeto", c04WriteTo}, // last transfer: the number of its read-ahead requests (hence the stream after it) depends on timing
 			{"close", c04CloseFile(c04F)},
 		}
 	}
@@ -585,7 +591,6 @@ func c04Program(v int) ([]sftp.ClientOption, []c04Call) {
 		{"readmc", c04ReadAt(c04F, 100, 0)},
 		{"writemc", c04WriteAt(c04F, 50, 3)},
 		{"read8", c04ReadAt(c04F, 8, 90)},
-		{"writeto", c04WriteTo},
 		{"create", c04Open("/g", true, setG)},
 		{"readfromc", c04ReadFrom(30)},
 		{"readfrom8", c04ReadFrom(8)},
@@ -593,6 +598,7 @@ func c04Program(v int) ([]sftp.ClientOption, []c04Call) {
 		{"readdir", c04ReadDir},
 		{"readmc2", c04ReadAt(c04F, 33, 17)},
 		{"fstat", fstat},
+		{"writeto", c04WriteTo},
 		{"close", c04CloseFile(c04F)},
 	}
 }
@@ -621,7 +627,7 @@ type c04Run struct {
 	newHang     bool
 	calls       []c04CallRes
 	reqs        []c04Req
-	sent        int // bytes of the reply stream taken by the client before the end-of-program cut
+	sent        int // bytes of the reply stream taken by the client
 	writes      int
 	cutInFrame  bool
 	cutInflight int
@@ -698,11 +704,19 @@ func c04Settle(baseline int) (n int, pkg, other []string) {
 }
 
 // c04Session runs the program of variant v against a fresh peer.
-func c04Session(v int, mode string, budget, failAt int, part bool) *c04Run {
+// c04Concurrent names the calls that keep several chunk requests in flight; their replies are the ones a lag holds back.
+var c04Concurrent = map[string]bool{"readmc": true, "readmc2": true, "writeto": true, "writemc": true, "readfromc": true}
+
+func c04Session(v int, mode string, budget, failAt int, part bool, lag int) *c04Run {
 	res := &c04Run{baseline: runtime.NumGoroutine()}
 	opts, prog := c04Program(v)
 	res.calls = make([]c04CallRes, len(prog))
 	p, link := newC04Peer(mode, budget, failAt, part)
+	p.lag, p.lagCalls = lag, map[int]bool{}
+	for i, call := range prog {
+		p.lagCalls[i] = c04Concurrent[call.name]
+	}
+	p.start()
 	st := &c04State{}
 	if !c04Within(func() { st.cl, res.newErr = sftp.NewClientPipe(link, link, opts...) }) {
 		res.newHang = true
@@ -722,7 +736,6 @@ func c04Session(v int, mode string, budget, failAt int, part bool) *c04Run {
 		p.curCall.Store(int32(len(prog)))
 		p.mu.Lock()
 		res.cutEarly = p.cutDone
-		res.sent = p.sent
 		p.mu.Unlock()
 		res.writes = link.writes()
 		p.cutNow()
@@ -744,7 +757,6 @@ func c04Session(v int, mode string, budget, failAt int, part bool) *c04Run {
 	} else {
 		p.mu.Lock()
 		res.cutEarly = p.cutDone
-		res.sent = p.sent
 		p.mu.Unlock()
 		res.writes = link.writes()
 	}
@@ -757,6 +769,7 @@ func c04Session(v int, mode string, budget, failAt int, part bool) *c04Run {
 	p.mu.Lock()
 	res.reqs = append([]c04Req(nil), p.reqs...)
 	res.cutInFrame, res.cutInflight = p.cutInFrame, p.cutInflight
+	res.sent = p.sent // read only now: the peer's writer has finished, so every byte the client took is counted
 	p.mu.Unlock()
 	res.goroutines, res.pkgLeft, res.otherLeft = c04Settle(res.baseline)
 	return res
@@ -821,10 +834,12 @@ type c04StressRes struct {
 	okOps   int
 }
 
-func c04Stress(c *Ctx, G int, mode string, budget, failAt int, part bool, seed int64) (*c04Run, *c04StressRes) {
+func c04Stress(c *Ctx, G int, mode string, budget, failAt int, part bool, lag int, seed int64) (*c04Run, *c04StressRes) {
 	res := &c04Run{baseline: runtime.NumGoroutine()}
 	sr := &c04StressRes{}
 	p, link := newC04Peer(mode, budget, failAt, part)
+	p.lag, p.lagAll = lag, true
+	p.start()
 	var cl *sftp.Client
 	if !c04Within(func() {
 		cl, res.newErr = sftp.NewClientPipe(link, link, sftp.MaxPacketUnchecked(64), sftp.MaxConcurrentRequestsPerFile(4))
@@ -958,18 +973,21 @@ func runC04(c *Ctx) {
 	c.Rule("a fixed client program (stat, open, single and multi-chunk ReadAt/WriteAt, WriteTo, ReadDir, ReadLink, Create/Write/ReadFrom, Close; 30-60 requests) " +
 		"runs against a scripted file server over net.Pipe; kind cut: for EVERY byte offset k of the server->client stream (incl. the VERSION reply) the first k bytes get through, " +
 		"then mode=eof (peer end closed) or mode=err (both ends closed, client sees a non-EOF error); mode=wfail: the client's k-th Write call fails (part=1: after half its bytes) and the link goes down; " +
-		"sess=0 short session (quick+thorough), sess=1 longer session with 3-deep concurrent ReadAt/WriteAt/WriteTo/ReadFrom (thorough); " +
+		"sess=0 short session, sess=1 longer session with 3-deep concurrent ReadAt/WriteAt/WriteTo/ReadFrom, sess=2 the short session on the sequential read paths; " +
+		"lag=n: the peer holds the replies to chunk requests until more than n are pending (several requests in flight at the cut); thorough adds more lags; " +
 		"kind stress: g goroutines loop Stat/ReadAt/multi-chunk ReadAt while the link is cut at a seeded byte/write index; " +
 		"non-trivial = the cut falls inside a frame or while >= 2 requests are unanswered")
 
 	// warm up lazily started runtime machinery before any baseline is taken
-	c04Session(0, "eof", -1, -1, false)
+	c04Session(0, "eof", -1, -1, false, 0)
 
-	sessions := []int{0}
+	type sessLag struct{ v, lag int }
+	sessions := []sessLag{{0, 0}, {0, 2}, {1, 0}, {1, 2}, {2, 0}}
 	if c.Thorough() {
-		sessions = append(sessions, 1)
+		sessions = []sessLag{{0, 0}, {0, 1}, {0, 2}, {0, 4}, {1, 0}, {1, 1}, {1, 2}, {2, 0}, {2, 1}}
 	}
-	for _, v := range sessions {
+	for _, sl := range sessions {
+		v, lag := sl.v, sl.lag
 		_, prog := c04Program(v)
 		// the reference: three uncut runs must agree on every call's value and on the number of replies each call needs
 		var ref *c04Run
@@ -977,7 +995,7 @@ func runC04(c *Ctx) {
 		L, J := 0, 0
 		refOK := true
 		for i := 0; i < 3; i++ {
-			r := c04Session(v, "eof", -1, -1, false)
+			r := c04Session(v, "eof", -1, -1, false, lag)
 			comp, miss := r.perCall(len(prog))
 			for ci := range prog {
 				if !r.calls[ci].returned || r.calls[ci].err != nil || miss[ci] != 0 {
@@ -995,12 +1013,22 @@ func runC04(c *Ctx) {
 					}
 				}
 			}
-			if r.sent > L {
-				L = r.sent
+			// the stream without WriteTo's read-ahead traffic is the same in every run: cut positions are taken from it
+			l, j := 9, 1
+			for _, q := range r.reqs {
+				if !q.readAhead {
+					l += q.rlen
+					j++
+					if q.typ == fxpWrite {
+						j++ // header and payload are two Write calls
+					}
+				}
 			}
-			if r.writes > J {
-				J = r.writes
+			if i > 0 && (l != L || j != J) {
+				c.Diag("c04 sess=%d reference runs disagree on the stream: %d/%d vs %d/%d", v, L, J, l, j)
+				refOK = false
 			}
+			L, J = l, j
 			if lr := c04LeakReason(r); lr != "" {
 				c.Diag("c04 sess=%d reference run %d: %s", v, i, lr)
 			}
@@ -1009,9 +1037,9 @@ func runC04(c *Ctx) {
 		for _, n := range refComplete {
 			nreq += n
 		}
-		c.Diag("c04 sess=%d reference: %d calls, %d needed replies, reply stream up to %d bytes, %d client Write calls", v, len(prog), nreq, L, J)
+		c.Diag("c04 sess=%d lag=%d reference: %d calls, %d needed replies, reply stream %d bytes, %d client Write calls (both without WriteTo read-ahead)", v, lag, len(prog), nreq, L, J)
 		if !refOK {
-			n := c.Case("cut", kvi("k", 0), kvs("mode", "none"), kvi("sess", v))
+			n := c.Case("cut", kvi("k", 0), kvs("mode", "none"), kvi("sess", v), kvi("lag", lag))
 			c.Oracle(n, false, "harness: the uncut reference session did not complete (see diag)")
 			continue
 		}
@@ -1102,25 +1130,25 @@ func runC04(c *Ctx) {
 		}
 
 		for _, mode := range []string{"eof", "err"} {
-			for k := 0; k <= L+16; k++ {
-				n := c.Case("cut", kvi("k", k), kvs("mode", mode), kvi("sess", v))
+			for k := 0; k <= L+64; k++ { // +64: room for read-ahead replies (24 bytes each) before the final replies
+				n := c.Case("cut", kvi("k", k), kvs("mode", mode), kvi("sess", v), kvi("lag", lag))
 				c.Stat("mode_" + mode)
-				evaluate(n, c04Session(v, mode, k, -1, false))
+				evaluate(n, c04Session(v, mode, k, -1, false, lag))
 			}
 		}
 		for _, part := range []bool{false, true} {
-			for j := 0; j <= J+1; j++ {
-				n := c.Case("cut", kvi("k", j), kvs("mode", "wfail"), kvi("sess", v), kvb("part", part))
+			for j := 0; j <= J+3; j++ {
+				n := c.Case("cut", kvi("k", j), kvs("mode", "wfail"), kvi("sess", v), kvi("lag", lag), kvb("part", part))
 				c.Stat("mode_wfail")
-				evaluate(n, c04Session(v, "wfail", -1, j, part))
+				evaluate(n, c04Session(v, "wfail", -1, j, part, lag))
 			}
 		}
 	}
 
 	// stress: callers registering requests while the receiver shuts down
-	rounds := 12
+	rounds := 40
 	if c.Thorough() {
-		rounds = 150
+		rounds = 600
 	}
 	for round := 0; round < rounds; round++ {
 		for _, G := range []int{2, 4, 8} {
@@ -1136,9 +1164,10 @@ func runC04(c *Ctx) {
 					k = budget
 				}
 				seed := c.Rng.Int63n(1 << 40)
-				n := c.Case("stress", kvi("g", G), kvs("mode", mode), kvi("k", k), kvb("part", part), kvx("seed", uint64(seed)))
+				lag := c.Rng.Intn(G) // 0: answer at once; up to g-1 replies held
+				n := c.Case("stress", kvi("g", G), kvs("mode", mode), kvi("k", k), kvb("part", part), kvi("lag", lag), kvx("seed", uint64(seed)))
 				c.Stat("stress_mode_" + mode)
-				r, sr := c04Stress(c, G, mode, budget, failAt, part, seed)
+				r, sr := c04Stress(c, G, mode, budget, failAt, part, lag, seed)
 				reasons := append([]string(nil), sr.reasons...)
 				if r.newHang {
 					reasons = append(reasons, "hang: NewClientPipe did not return within 5s")
